@@ -20,11 +20,13 @@ def run(tier, only=None):
                 for k1 in range(5):
                     conds.append(Cond("harness.h_c16", "h_expand", t, part=(k1 + 1) * 1000 + k0 * 100 + 30 + late,
                                       label="h_expand[3 referrer slots, sources %s, referrers %s, %s]" % ("after" if late else "before", KINDS[k0], KINDS[k1])))
+    conds.append(Cond("harness.h_c16", "h_expand_nested", t, part=30, label="h_expand_nested[a referenced element nested inside another referenced element]"))
     conds.append(Cond("harness.h_c16", "h_expand_many", t, part=30, label="h_expand_many[six referrers, five to one id]"))
     if only:
         conds = [c for c in conds if only in c.label]
     rep.bounds = {"tree": "dataset{title, two identified sources (A: individualName{givenName,surName}+electronicMailAddress, B: organizationName), up to %d "
                           "referrers}" % (2 if tier == "quick" else 3),
+                  "nested": "creator#idA > individualName#idC with a reference to each (either document order, optionally a second reference to idA)",
                   "many": "six referrers (five naming one id) with symbolic fault kind/position and source placement",
                   "symbolic": "kind of each referrer (absent / plain / with a trailing role child; pointing at A or B), sources before the referrers (creators "
                               "referenced by contacts/associatedParties) or after them (contacts referenced by creators/associatedParties), fault: none / one "
